@@ -311,7 +311,7 @@ PROPS["C19"] = {
     "rule": "cases are histories (4-24 ops) on twin locations P (protected) and U (never protected): protection changes (set/remove "
             "write key, set/remove read key, read-only on/off, disabled on/off) interleaved with operations from the Location API "
             "(AddFact, RemFact, AddRule, RemRule, EnableRule, SetParents, Clear, GetFact, GetRule, SearchFacts, SearchRules, ListRules, "
-            "Query, StateSize, GetParents), RunJavascript calling Env.AddFact / Env.Search, and events whose actions call Env.AddFact, "
+            "Query, StateSize, GetParents, RuleEnabled), RunJavascript calling Env.AddFact / Env.Search, and events whose actions call Env.AddFact, "
             "Env.RemFact, Env.AddRule, Env.Search, each under a caller context from {no key, wrong keys, right keys, read key only, "
             "write key only}; indexed or linear. Unauthorised call on P: must fail (an event may be processed as long as no action "
             "succeeds), must return no data, storage snapshot unchanged. Authorised call: result and error status equal U's. "
